@@ -52,3 +52,12 @@ Definition ssh_obs_ok (maxc : Z) (requested : option Z) (iat_s t0_s t1_s : Z)
       (let lo := (va + Z.quot dlo NS) in let hi := (va + Z.quot dhi NS) in
        (lo - 1 <=? vb) && (vb <=? hi + 1))
   end.
+
+(* a session as certGenHandler sees it: (authenticated-at instant, level).  jwt.go
+   updateAuthJWTWithNewAuthLevel re-signs the SAME claims with a new level: every second-factor
+   handler goes through it, however late in the life of the session. *)
+Definition session := (Z * Z)%type.
+Definition upgrade (s : session) (level : Z) : session := (fst s, Z.lor (snd s) level).
+Definition upgrades (s : session) (levels : list Z) : session := List.fold_left upgrade levels s.
+(* a variant that stamps the upgrade instant (what a re-issue through the login path would do) *)
+Definition upgrade_restamp (now : Z) (s : session) (level : Z) : session := (now, Z.lor (snd s) level).
